@@ -422,18 +422,30 @@ HISTORY_KINDS = ['circle', 'ellipse', 'rectangle', 'polygon', 'circle_annulus', 
                  'rectangle_annulus', 'point', 'line']
 
 
-def reassign(reg, d):
+def reassign(reg, d, prev=None):
     """give the existing region object `reg` the parameters of desc `d` (same kind) by attribute
-    assignment, as a user would."""
+    assignment, as a user would.  With `prev` (the description the object was built from) only the
+    parameters that differ are assigned (simple shapes) - a user changes what changes."""
     import astropy.units as u
     from regions import PixCoord
     k = d['kind']
     P = lambda p: PixCoord(p[0], p[1])
     A = lambda a: a[0] * u.Unit(a[1])
+    ch = lambda key: prev is None or prev.get(key) != d.get(key)
     if k == 'circle':
-        reg.center = P(d['c']); reg.radius = d['r']
+        if ch('c'):
+            reg.center = P(d['c'])
+        if ch('r'):
+            reg.radius = d['r']
     elif k in ('ellipse', 'rectangle'):
-        reg.center = P(d['c']); reg.width = d['w']; reg.height = d['h']; reg.angle = A(d['angle'])
+        if ch('c'):
+            reg.center = P(d['c'])
+        if ch('w'):
+            reg.width = d['w']
+        if ch('h'):
+            reg.height = d['h']
+        if ch('angle'):
+            reg.angle = A(d['angle'])
     elif k == 'polygon':
         reg.vertices = PixCoord([p[0] for p in d['v']], [p[1] for p in d['v']])
     elif k == 'circle_annulus':
@@ -474,6 +486,9 @@ def warm(reg):
         reg.area
     except NotImplementedError:
         pass
+    except Exception:
+        # the warm-up only creates history; whatever it raises is raised again (and judged) by the calls under test
+        pass
 
 
 def build_case(case):
@@ -485,19 +500,39 @@ def build_case(case):
         return build(d)
     reg = build(prev)
     warm(reg)
-    return reassign(reg, d)
+    return reassign(reg, d, prev if case.get('only_changed', True) else None)
 
 
 def add_history(rng, case, prob=0.2):
     """with some probability give the case a previous parametrisation of the same kind."""
     d = case['region']
     if d['kind'] in HISTORY_KINDS and 'origin' not in d and rng.random() < prob:
-        if rng.random() < 0.3:
+        m_ = rng.random()
+        if m_ < 0.3:
             # the SAME parameters: the object was merely used before (with other call arguments)
             import copy
             p = copy.deepcopy(d)
+        elif m_ < 0.6:
+            # exactly ONE parameter differed before (a cache invalidated by some assignments but not by others)
+            import copy
+            p = copy.deepcopy(d)
+            keys = [k for k in p if k not in ('kind', 'include', 'origin', 'n', 'v', 'text')]
+            k = rng.choice(keys) if keys else None
+            if k == 'angle':
+                p[k] = [p[k][0] + {'deg': 90.0, 'rad': 1.5, 'arcmin': 5400.0, 'hourangle': 6.0}.get(p[k][1], 1.0) * rng.choice([1, -1, 0.37]), p[k][1]]
+            elif k == 'c':
+                p[k] = [p[k][0] + rng.choice([-3, 2.5, 7]), p[k][1] + rng.choice([-2, 4.5, 0])]
+            elif k is not None and isinstance(p[k], (int, float)) and not isinstance(p[k], bool):
+                # sizes: shrink (keeps annulus inner < outer orderings only sometimes; invalid previous states are skipped below)
+                p[k] = p[k] * rng.choice([0.5, 0.8, 1.25, 2.0])
+            try:
+                build(p)
+            except Exception:
+                p = copy.deepcopy(d)
         else:
             p = gen_simple(rng, kind=d['kind'], scale=1.0, center_scale=3)
         p.pop('origin', None)
         case['prev'] = p
+        # assign only what differs (70 %) or every parameter, unchanged ones included
+        case['only_changed'] = rng.random() < 0.7
     return case
